@@ -237,6 +237,99 @@ def impl_parse(kind, root: Path, text: str, flt, ign, compression=None, pad_mmap
     return sorted((str(f.path), f.size, bool(f.ignore_errors)) for f in files)
 
 
+# ------------------------------------------------------------------ byte-level tie (Render.v)
+BYTES_HEADER = "From AM.Model Require Import Base Path Targets Deb822 Render.\nFrom AM.Lemmas Require Import Deb822Lemmas RenderLemmas."
+BYTES_DEFS = COQ_DEFS + """
+Definition mkfield n v c := {| fname := n; fvalue := v; fcont := c |}.
+(* ending: 0 = blank lines after every stanza, 1 = final newline only, 2 = no final newline *)
+Definition m_bytes (c : nat * list (list field * nat) * list field * list field *
+                        (list string * list string * list string * list string) * list string * string)
+  : bool * bool * string * obs :=
+  match c with (ending, ss, last, fin, (a, b, c1, d), ign, root) =>
+    let all := match ending, fin with
+               | 0, _ => ss
+               | 1, _ => ss ++ [(last, 0)]
+               | _, f :: _ => ss ++ [(last ++ [f], 0)]
+               | _, [] => ss
+               end in
+    let text := match ending, fin with
+                | 0, _ => render_spaced ss
+                | 1, _ => render_tight ss last
+                | _, f :: _ => render_unterminated ss last f
+                | _, [] => render_spaced ss
+                end in
+    (wf_index all, plain_index all, text, show (POk (index_entries false (mkf a b c1 d) ign (parse root) all)))
+  end.
+Definition eq_bytes (x y : bool * bool * string * obs) : bool :=
+  match x, y with (w1, p1, t1, o1), (w2, p2, t2, o2) =>
+    Bool.eqb w1 w2 && Bool.eqb p1 p2 && String.eqb t1 t2 && eq_obs o1 o2 end.
+"""
+
+
+def gen_bytes_case(rng):
+    """a structured Packages index inside the hypotheses of the byte-level theorems"""
+    def fields_of(i):
+        st = [f for f in gen_packages_stanza(rng, i) if f[1] != ""]
+        if not st:
+            st = [("Package", "alpha", [])]
+        return [(n, v, [c[1:] for c in cont]) for n, v, cont in st]
+    n = rng.choice([0, 1, 2, 3, 5])
+    ss = [(fields_of(i), rng.randint(0, 2)) for i in range(n)]
+    ending = rng.choice([0, 0, 1, 2])
+    last = fields_of(50) if ending else []
+    fin = [rng.choice([("Tag", "role::program", []), ("Size", "33", []), ("Package", "omega", []),
+                       ("SHA256", "ab12", []), ("Filename", "pool/main/o/omega_1_all.deb", [])])] if ending == 2 else []
+    flt = {"inc_src": [], "exc_src": [], "inc_bin": [], "exc_bin": []}
+    for k in flt:
+        if rng.random() < 0.25:
+            flt[k] = rng.sample(PKGS, rng.randint(1, 3))
+    ign = rng.sample(["pool/main/a", "pool/main/b/beta", "pool"], rng.randint(0, 1)) if rng.random() < 0.3 else []
+    return {"ending": ending, "ss": ss, "last": last, "fin": fin, "flt": flt, "ign": ign}
+
+
+def py_render_bytes(case):
+    def st_text(st):
+        return "".join(n + ": " + v + "\n" + "".join(" " + c + "\n" for c in cont) for n, v, cont in st)
+    text = "".join(st_text(st) + "\n" * (1 + k) for st, k in case["ss"])
+    if case["ending"] >= 1:
+        text += st_text(case["last"])
+    if case["ending"] == 2:
+        n, v, _ = case["fin"][0]
+        text += n + ": " + v
+    return text
+
+
+def run_bytes(rep, rng, n, root):
+    found = False
+    rows = []
+
+    def cfield(f):
+        return "(mkfield %s %s %s)" % (cstr(f[0]), cstr(f[1]), clist(cstr(c) for c in f[2]))
+    for _ in range(n):
+        case = gen_bytes_case(rng)
+        text = py_render_bytes(case)
+        o = impl_parse("packages", root, text, case["flt"], case["ign"])
+        ref = ref_packages(text, case["flt"], case["ign"])
+        rep.case(("bytes", case["ending"], len(case["ss"]), len(o) if o is not None else -1, bool(any(case["flt"].values()))),
+                 sample={"ending": case["ending"], "text": text[:300], "result": o})
+        rep.count(f"bytes.ending.{case['ending']}")
+        if o != ref:
+            found = True
+            rep.violation(f"packages index (structured, ending {case['ending']}): parser result differs from the control-file format",
+                          {"kind": "oracle", "tie": "bytes", "case": case, "impl": o, "reference": ref},
+                          tags={"oracle": "reference", "kind": "bytes"})
+        f = case["flt"]
+        cin = ctuple(str(case["ending"]) + "%nat",
+                     clist(ctuple(clist(cfield(x) for x in st), str(k) + "%nat") for st, k in case["ss"]),
+                     clist(cfield(x) for x in case["last"]), clist(cfield(x) for x in case["fin"]),
+                     ctuple(*(clist(cstr(x) for x in f[k]) for k in ("inc_src", "exc_src", "inc_bin", "exc_bin"))),
+                     clist(cstr(x) for x in case["ign"]), cstr(str(root)))
+        # the generated index is inside the theorems' hypotheses (wf, plain); its text is what the model renders
+        cout = ctuple("true", "true", cstr(text), c_obs(o))
+        rows.append((case, cin, cout))
+    return rows, found
+
+
 def gen_case(rng):
     kind = rng.choice(["packages", "sources"])
     n = rng.choice([0, 1, 2, 3, 5, 8])
@@ -327,7 +420,9 @@ def run(rep: C.Report):
                 "missing final newline, optional fields dropped, 4 filter sets, ignore_errors, xz/gz/bz2, "
                 ">1MiB (mmap); distinct by (kind, #stanzas, #entries, filters?, ignore?, compression, final NL)")
     rep.assumptions += ["lzma/gzip/bz2 and mmap are exercised, not modelled",
-                        "byte-level classification of lines is tied differentially, not proved against a renderer"]
+                        "byte level: Packages proved against the renderer of Model/Render.v (3 endings); the renderer and "
+                        "index_entries are tied to the generator's text and the real parser's result (tie 'bytes'); "
+                        "Sources classification is tied differentially only"]
     C.proof_step(rep, thorough=(rep.tier == "thorough"))
     rng = random.Random(rep.seed + 9)
     n = 900 if rep.tier == "quick" else 20000
@@ -341,6 +436,8 @@ def run(rep: C.Report):
         cases += [gen_case(rng) for _ in range(n)]
         rows, found = run_cases(rep, cases, root)
         found |= mmap_cases(rep, rng, root)
+        brows, bf = run_bytes(rep, random.Random(rep.seed + 909), 150 if rep.tier == "quick" else 4000, root)
+        found |= bf
     finally:
         shutil.rmtree(top, ignore_errors=True)
     header = HEADER + COQ_DEFS
@@ -350,6 +447,11 @@ def run(rep: C.Report):
                                              [(a, b) for _, a, b in rs], shard=60, timeout=1500)
         C.tie_verdict(rep, kind, mism, errors, [c for c, _, _ in rs], found, header=header, fn=fn,
                       coq_inputs=[a for _, a, _ in rs])
+    bheader = BYTES_HEADER + BYTES_DEFS
+    mism, errors = C.run_mismatch_shards(rep.prop, "bytes", bheader, "m_bytes", "eq_bytes",
+                                         [(a, b) for _, a, b in brows], shard=50, timeout=1500)
+    C.tie_verdict(rep, "bytes", mism, errors, [c for c, _, _ in brows], found, header=bheader, fn="m_bytes",
+                  coq_inputs=[a for _, a, _ in brows])
     C.proof_verdict(rep, found)
 
 
